@@ -1,5 +1,5 @@
 import PGA.Proofs.Estimate
-import PGA.Gen.Pmutt
+import PGA.Proofs.EstimateTables
 /-!
 # C07 — dimensional results are the non-dimensional ones times R (and T); elemental-entropy offset
 
@@ -169,13 +169,6 @@ theorem C07_corr_ignores_flag (c : Corr) (T : Rat) (f1 f2 : PyFlag) : c.toND.sor
 /-! ### T4: table obligations over the regenerated pmutt tables (`decide +kernel`) -/
 
 open PGA.Gen.Pmutt in
-/-- value of the table's `J/mol/K` entry -/
-def rSI : Rat := match rTable.lookup ['J','/','m','o','l','/','K'] with | some d => d.toRat | none => 0
-
-/-- `|a − b| ≤ tol·|b|` without absolute-value notation -/
-def within (a b tol : Rat) : Bool := (a - b) * (a - b) ≤ tol * tol * (b * b)
-
-open PGA.Gen.Pmutt in
 /-- every unit string `R` accepts has a reference factor, and `R(u)·(value of u in J/mol/K)` reproduces
 `R('J/mol/K')` to the table's eight significant digits (relative 10⁻⁷): the ratios of the entries are the standard
 conversion factors kcal↔kJ↔J↔cal↔eV↔Eh, per mole vs per molecule, pressure-volume units. -/
@@ -187,13 +180,6 @@ theorem C07_tab_units_ref :
 open PGA.Gen.Pmutt in
 /-- the gas constant itself: 8.3144598 J/(mol·K) (CODATA 2014) to 10⁻⁷ relative -/
 theorem C07_tab_R_SI : within rSI (83144598/10000000) (1/10000000) = true ∧ 0 < rSI := by decide +kernel
-
-open PGA.Gen.Pmutt in
-/-- `R(u₁)·k = R(u₂)` exactly -/
-def ratioIs (u1 u2 : List Char) (k : Rat) : Bool :=
-  match rTable.lookup u1, rTable.lookup u2 with
-  | some a, some b => a.toRat * k == b.toRat
-  | _, _ => false
 
 /-- prefixes and synonyms are exact: kJ = 1000 J, kcal = 1000 cal, Ha = Eh, L·kPa = m³·Pa = cm³·MPa = J,
 cm³·kPa = 10⁻³ J, L·bar = 100 J, m³·bar = 10⁵ J, L·atm = 1000 cm³·atm -/
@@ -223,6 +209,40 @@ theorem C07_tab_selements :
       | none => false) = true
     ∧ refSymbols.all (fun p => sElementsSym.lookup p.1 == sElements.lookup p.2 && (sElements.lookup p.2).isSome) = true
     ∧ sElements.all (fun p => 0 < p.2.toRat) = true := by decide +kernel
+
+/-- **Conversion factors (algebra)** If two table entries `r₁`, `r₂` reproduce the same SI value through the
+reference factors `f₁`, `f₂` to relative `tol`, then a quantity `nd·r` requested in the two units, converted to SI
+with the reference factors, agrees to `2·tol·|nd|·R_SI`. -/
+theorem C07_conversion (nd r1 r2 f1 f2 Rsi tol : Rat)
+    (h1 : |r1 * f1 - Rsi| ≤ tol * |Rsi|) (h2 : |r2 * f2 - Rsi| ≤ tol * |Rsi|) :
+    |nd * r1 * f1 - nd * r2 * f2| ≤ 2 * tol * |nd| * |Rsi| := by
+  have e : nd * r1 * f1 - nd * r2 * f2 = nd * ((r1 * f1 - Rsi) - (r2 * f2 - Rsi)) := by ring
+  rw [e, abs_mul]
+  have := abs_sub (r1 * f1 - Rsi) (r2 * f2 - Rsi)
+  have hn := abs_nonneg nd
+  nlinarith
+
+open PGA.Gen.Pmutt in
+/-- **Conversion factors (the regenerated table)** For any two unit strings the gas-constant table accepts, with
+hand-written reference factors `f₁`, `f₂` (value of the unit in J/(mol·K)): a non-dimensional value `nd` turned into the
+two units (`nd·R(u)`) and converted to SI agrees to `2·10⁻⁷·|nd|·R_SI` — values requested in two units differ by the
+conversion factor between those units, to the eight significant digits of the table. With `nd = (S/R)`, `(Cp/R)`,
+`(H/RT)·T`, `(G/RT)·T` this covers the four getters (`C07_S`, `C07_Cp`, `C07_H`, `C07_G`). -/
+theorem C07_tab_conversion (u1 u2 : UnitStr) (d1 d2 : Dec) (f1 f2 nd : Rat)
+    (hu1 : rTable.lookup u1 = some d1) (hu2 : rTable.lookup u2 = some d2)
+    (hf1 : refUnitInSI.lookup u1 = some f1) (hf2 : refUnitInSI.lookup u2 = some f2) :
+    |nd * d1.toRat * f1 - nd * d2.toRat * f2| ≤ 2 * (1/10000000) * |nd| * |rSI| := by
+  have hall := C07_tab_units_ref
+  rw [List.all_eq_true] at hall
+  have mem : ∀ (u : UnitStr) (d : Dec), rTable.lookup u = some d → (u, d) ∈ rTable := by
+    intro u d h
+    obtain ⟨l1, l2, hl, _⟩ := List.lookup_eq_some_iff.mp h
+    rw [hl]; simp
+  have a1 := hall _ (mem u1 d1 hu1)
+  have a2 := hall _ (mem u2 d2 hu2)
+  simp only [hf1, hf2] at a1 a2
+  rw [within_iff _ _ _ (by norm_num)] at a1 a2
+  exact C07_conversion nd d1.toRat d2.toRat f1 f2 rSI (1/10000000) a1 a2
 
 /-! ### non-vacuity -/
 namespace Ex07
